@@ -180,6 +180,10 @@ func (f *Frame) doCallInner(instr ssa.Instruction, cc *ssa.CallCommon, st *State
 	}
 	c := e.P.ContractFor(callee)
 	if c != nil && !c.Inline && !(callee == e.top && f.parent == nil && false) {
+		if fv != nil {
+			e.curBindings, e.curBindFrame = fv.Bindings, f
+			defer func() { e.curBindings, e.curBindFrame = nil, nil }()
+		}
 		return f.applyContract(c, callee, cc, args, st, rt, pos, funcKey(callee))
 	}
 	if e.inlinable(callee) && !f.onStack(callee) && f.depth < e.maxInline {
@@ -479,9 +483,24 @@ func (e *Engine) bindParams(ctx *EvalCtx, c *Contract, callee *ssa.Function, cc 
 				}
 			}
 		}
-		for i, fv := range callee.FreeVars {
-			_ = i
-			_ = fv
+		// captured variables of a closure called with known bindings: their names denote the captured variables' current content
+		if e.curBindings != nil {
+			for i, fv := range callee.FreeVars {
+				if i >= len(e.curBindings) {
+					break
+				}
+				if _, bound := ctx.paramVals[fv.Name()]; bound {
+					continue
+				}
+				v := e.curBindings[i]
+				if pt, isPtr := fv.Type().(*types.Pointer); isPtr {
+					if l := e.locOf(e.curBindFrame, v); l != nil {
+						ctx.paramVals[fv.Name()] = Val{T: pt.Elem(), S: e.load(ctx.st, l)}
+					}
+					continue
+				}
+				ctx.paramVals[fv.Name()] = v
+			}
 		}
 		return
 	}
